@@ -13,6 +13,7 @@ pub mod c08;
 pub mod c09;
 pub mod c10;
 pub mod c11;
+pub mod c12;
 pub mod c13;
 pub mod c14;
 pub mod c19;
@@ -30,6 +31,7 @@ pub fn dispatch(ctx: &mut Ctx) -> bool {
 		"C09" => c09::run(ctx),
 		"C10" => c10::run(ctx),
 		"C11" => c11::run(ctx),
+		"C12" => c12::run(ctx),
 		"C13" => c13::run(ctx),
 		"C14" => c14::run(ctx),
 		"C19" => c19::run(ctx),
@@ -54,6 +56,7 @@ pub fn confirm(key: &str) -> Option<Option<String>> {
 		"C09" => c09::confirm(key),
 		"C10" => c10::confirm(key),
 		"C11" => c11::confirm(key),
+		"C12" => c12::confirm(key),
 		"C13" => c13::confirm(key),
 		"C14" => c14::confirm(key),
 		"C19" => c19::confirm(key),
